@@ -102,7 +102,8 @@ class Lower:
                         iv = f[1][2][0][0]
                         push3 = ('expr', ('call', ('member', ('id', 'applicable'), 'push_back', False), [('un', '&', ('index', ('member', ('id', 'm'), 'specs', False), ('id', iv)))]))
                         fb = nonempty(f[4][1] if f[4][0] == 'block' else [f[4]])
-                        ok3 = (f[2] == ('bin', '<', ('id', iv), ('call', ('member', ('member', ('id', 'm'), 'specs', False), 'size', False), []))
+                        ok3 = (f[2] in (('bin', '<', ('id', iv), ('call', ('member', ('member', ('id', 'm'), 'specs', False), 'size', False), [])),
+                                        ('bin', '!=', ('id', iv), ('call', ('member', ('member', ('id', 'm'), 'specs', False), 'size', False), [])))
                                and f[3] in (('un', '++', ('id', iv)), ('post', '++', ('id', iv)))
                                and fb in ([('if', False, ('index', ('id', 'mask'), ('id', iv)), ('block', [push3]), None)], [('if', False, ('index', ('id', 'mask'), ('id', iv)), push3, None)]))
                     if ok3:
